@@ -14,6 +14,10 @@ pub struct Knobs {
     /// weight of container kinds (0..=10)
     pub container_bias: u64,
     pub long_numbers: bool,
+    /// one run in thirty: tokens far beyond any inline buffer (numbers of thousands of digits, strings of thousands of elements)
+    pub huge_tokens: bool,
+    /// one run in thirty: very wide containers
+    pub wide: bool,
 }
 
 impl Knobs {
@@ -26,6 +30,8 @@ impl Knobs {
             anomalies: rng.chance(1, 6),
             container_bias: rng.range(1, 8),
             long_numbers: rng.chance(1, 8),
+            huge_tokens: rng.chance(1, 30),
+            wide: rng.chance(1, 30),
         }
     }
 }
@@ -45,14 +51,14 @@ pub fn gen_number(rng: &mut Rng, k: &Knobs, out: &mut Vec<char>) {
     if rng.chance(1, 3) { out.push('-'); }
     if rng.chance(1, 3) { out.push('0'); } else {
         out.push((b'1' + rng.below(9) as u8) as char);
-        let hi = if k.long_numbers { 40 } else { 4 };
+        let hi = if k.huge_tokens { 3000 } else if k.long_numbers { 40 } else { 4 };
         digits(rng, out, 0, hi);
     }
-    if rng.chance(1, 3) { out.push('.'); digits(rng, out, 1, if k.long_numbers { 30 } else { 3 }); }
+    if rng.chance(1, 3) { out.push('.'); digits(rng, out, 1, if k.huge_tokens { 2000 } else if k.long_numbers { 30 } else { 3 }); }
     if rng.chance(1, 3) {
         out.push(if rng.chance(1, 2) { 'e' } else { 'E' });
         match rng.below(3) { 0 => out.push('+'), 1 => out.push('-'), _ => {} }
-        digits(rng, out, 1, 3);
+        digits(rng, out, 1, if k.huge_tokens { 400 } else { 3 });
     }
 }
 
@@ -70,6 +76,7 @@ const SIMPLE_ESC: [char; 8] = ['"', '\\', '/', 'b', 'f', 'n', 'r', 't'];
 
 pub fn gen_string(rng: &mut Rng, k: &Knobs, out: &mut Vec<char>, max_elems: usize) {
     out.push('"');
+    let max_elems = if k.huge_tokens && rng.chance(1, 3) { 4000 } else { max_elems };
     for _ in 0..rng.urange(0, max_elems) {
         match rng.below(12) {
             0..=4 => out.push(*rng.pick(&RAW)),
@@ -102,7 +109,7 @@ fn gen_value(rng: &mut Rng, k: &Knobs, depth: usize, out: &mut Vec<char>) {
     let room = out.len() < k.budget;
     let container = depth < k.max_depth && room && rng.below(10) < k.container_bias;
     if container {
-        let n = rng.urange(0, k.max_fanout);
+        let n = if k.wide && rng.chance(1, 2) { rng.urange(0, 1500) } else { rng.urange(0, k.max_fanout) };
         if rng.chance(1, 2) {
             out.push('['); ws(rng, k, out);
             for i in 0..n {
